@@ -115,7 +115,7 @@ def plan(tier, seed, complete=False):
         r = R(mix("C13", seed))
         idx = sorted(set(r.sample(npairs, 2200)) | {npairs + k for k in r.sample(ntriples, 500)})
     return {
-        "items": [f"H:{i}" for i in idx] + ([f"API:{k}" for k in range(16)] if (complete or tier == "thorough") else [f"API:{seed % 16}", f"API:{(seed + 5) % 16}"]),
+        "items": [f"H:{i}" for i in idx] + ([f"API:{k}" for k in range(64)] if (complete or tier == "thorough") else [f"API:{(seed * 4 + j) % 64}" for j in range(6)]),
         "zones": {"ordered pairs": {"universe": npairs, "run": len([i for i in idx if i < npairs])}, "ordered triples": {"universe": ntriples, "run": len([i for i in idx if i >= npairs])}, "pool": {"documents": n}},
         "exhaustive": False,
         "rule": "ordered pairs (all) and pseudo-random triples over a pool of hand-written state-bearing documents + corpus documents, scan and fix, "
@@ -124,10 +124,15 @@ def plan(tier, seed, complete=False):
 
 
 def witness_item(k):
-    return {"key": "W:" + k["id"], "hist": k["witness"]["history"]}
+    w = k["witness"]
+    if "api_sequence" in w or str(w.get("case", "")).startswith("API:"):
+        return {"key": "W:" + k["id"], "api": int(w.get("api_sequence", str(w.get("case", "API:0")).split(":")[1]))}
+    return {"key": "W:" + k["id"], "hist": w["history"]}
 
 
 def replay_item(rp):
+    if "api_sequence" in rp["detail"]:
+        return {"key": str(rp["case"]), "api": int(rp["detail"]["api_sequence"])}
     return {"key": str(rp["case"]), "hist": rp["detail"]["history"]}
 
 
@@ -174,6 +179,10 @@ def run_items(items, job):
         return single_fix[d]
 
     for it in items:
+        if isinstance(it, dict) and "api" in it:
+            cfg["sets"] = ()
+            _api_sequence(it["api"], docs, allr, sb, R, scan_alone, PyMarkdownApi, PyMarkdownApiException, key=it["key"])
+            continue
         if isinstance(it, dict):
             key, hist = it["key"], it["hist"]
         elif it.startswith("API:"):
@@ -241,35 +250,69 @@ def run_items(items, job):
     return R.as_dict()
 
 
-def _api_sequence(k, docs, allr, sb, R, scan_alone, PyMarkdownApi, PyMarkdownApiException):
-    """One API object, many consecutive calls."""
+def _api_sequence(k, docs, allr, sb, R, scan_alone, PyMarkdownApi, PyMarkdownApiException, key=None):
+    """One API object, many consecutive calls of every kind; each result must equal that of a fresh object."""
     from vf.prng import R as PR
 
     r = PR(0x13A00000 + k)
-    seq = [r.below(len(docs)) for _ in range(12)]
-    api = PyMarkdownApi().log_critical_and_above()
-    for rid in allr:
-        api.enable_rule_by_identifier(rid)
-    R.evals += 1
-    v = set()
-    for d in seq:
-        if docs[d].strip() == "":
-            continue
-        want = scan_alone(d)
-        if want is None:
-            continue
+    seq = [(r.below(len(docs)), r.below(6)) for _ in range(14)]
+
+    def make():
+        a = PyMarkdownApi().log_critical_and_above()
+        for rid in allr:
+            a.enable_rule_by_identifier(rid)
+        return a
+
+    def fails(res):
+        return sorted((f.line_number, f.column_number, f.rule_id, f.rule_name, f.rule_description, f.extra_error_information or "") for f in res.scan_failures)
+
+    def call(a, op, d):
+        """-> comparable result of one call (exceptions are results too)"""
         sb.clear_files()
         p = sb.write_bytes("x.md", docs[d].encode("utf-8"))
         try:
-            res = api.scan_path(p)
-        except PyMarkdownApiException:
-            v.add("api:exception-only-in-sequence")
+            if op <= 1:
+                res = a.scan_path(p)
+                return ("scan_path", fails(res), sorted((e.line_number, e.pragma_error) for e in res.pragma_errors))
+            if op == 2:
+                res = a.scan_string(docs[d])
+                return ("scan_string", fails(res), sorted((e.line_number, e.pragma_error) for e in res.pragma_errors))
+            if op == 3:
+                res = a.fix_string(docs[d])
+                return ("fix_string", bool(res.was_fixed), res.fixed_file)
+            if op == 4:
+                res = a.fix_path(p)
+                return ("fix_path", sorted(os.path.basename(x) for x in res.files_fixed), sb.read("x.md"))
+            res = a.list_path(sb.cwd)
+            return ("list_path", sorted(os.path.basename(x) for x in res.matching_files))
+        except PyMarkdownApiException as e:
+            import re
+
+            return ("exception", re.sub(r"'[^']*'", "'PATH'", str(e))[:120])
+
+    api = make()
+    R.evals += 1
+    v = set()
+    trail = []
+    diffs = []
+    for d, op in seq:
+        if docs[d].strip() == "":
             continue
-        R.count("invocations")
+        want = call(make(), op, d)
+        got = call(api, op, d)
+        R.count("invocations", 2)
         R.count("files_compared")
-        got = sorted((f.line_number, f.column_number, f.rule_id, f.rule_name, f.rule_description, f.extra_error_information or "") for f in res.scan_failures)
-        if got != want[0]:
-            v.add("api:sequence-differs:" + ",".join(sorted({x[2] for x in set(got) ^ set(want[0])})))
+        R.count("api_calls_on_reused_object")
+        R.see("api_ops", want[0])
+        if got != want:
+            what = want[0] if want[0] == got[0] else f"{want[0]}->{got[0]}"
+            v.add(f"api:{what}-differs-after:" + (trail[-1] if trail else "nothing"))
+            diffs.append([list(map(str, want))[:3], list(map(str, got))[:3]])
+        trail.append(want[0])
+        if op <= 1 and want[0] == "scan_path":
+            alone = scan_alone(d)
+            if alone is not None and want[1] != alone[0]:
+                v.add("api:scan_path-vs-command-line")
     R.count("histories_compared")
     if v:
-        R.viol.append([f"API:{k}", ";".join(sorted(v)), {"history": seq, "api_sequence": k}])
+        R.viol.append([key or f"API:{k}", ";".join(sorted(v)), {"history": [list(x) for x in seq], "api_sequence": k, "differences": diffs[:4]}])
